@@ -26,7 +26,7 @@ def main():
     if a.cmd in ("check", "replay", "selfcheck"):
         runner.ensure_env()
         # re-exec inside the overlay venv so that pyformlang (/repo) and crosshair are importable
-        if os.path.realpath(sys.executable) != os.path.realpath(runner.PY) and not os.environ.get("VF_INNER"):
+        if not os.environ.get("VF_INNER"):
             env = dict(os.environ, VF_INNER="1", PYTHONPATH=runner.VERIF + os.pathsep + runner.REPO,
                        PYTHONDONTWRITEBYTECODE="1")
             os.execve(runner.PY, [runner.PY, "-m", "vlib.cli"] + sys.argv[1:], env)
